@@ -9,6 +9,7 @@ mod c03;
 mod c04;
 mod c05;
 mod c06;
+mod c07;
 mod c08;
 mod c09;
 mod c10;
@@ -75,6 +76,7 @@ fn main() {
         "C04" => c04::main(&args),
         "C05" => c05::main(&args),
         "C06" => c06::main(&args),
+        "C07" => c07::main(&args),
         "C08" => c08::main(&args),
         "C09" => c09::main(&args),
         "C10" => c10::main(&args),
